@@ -185,6 +185,10 @@ class VM:
     def push(self, b) -> None:
         if not isinstance(b, bytes):
             raise VMError('non-bytes item')
+        if is_opaque(b) and b.tag == 'error-text' and \
+                self.cfg.max_item_size < 512:
+            raise Unspecified('error text pushed under a small item limit '
+                              '(its length is not specified)')
         if len(b) > self.cfg.max_item_size:
             raise VMError('item too large')
         if len(self.stack) >= self.cfg.max_items:
